@@ -306,3 +306,38 @@ func SortedKeys[V any](m map[string]V) []string {
 	sort.Strings(ks)
 	return ks
 }
+
+// Effective drops the statements of a block that have no effect whatever they are given (assignments of call-free expressions to
+// the blank identifier, empty statements): rules that ask for "the first statement" or "exactly this statement" of a block ask
+// it of what is left.
+func Effective(list []ast.Stmt) []ast.Stmt {
+	var out []ast.Stmt
+	for _, st := range list {
+		switch x := st.(type) {
+		case *ast.EmptyStmt:
+			continue
+		case *ast.AssignStmt:
+			blank := true
+			for _, l := range x.Lhs {
+				if id, ok := l.(*ast.Ident); !ok || id.Name != "_" {
+					blank = false
+				}
+			}
+			pure := true
+			for _, r := range x.Rhs {
+				ast.Inspect(r, func(n ast.Node) bool {
+					switch n.(type) {
+					case *ast.CallExpr, *ast.UnaryExpr, *ast.IndexExpr, *ast.StarExpr, *ast.TypeAssertExpr:
+						pure = false
+					}
+					return true
+				})
+			}
+			if blank && pure {
+				continue
+			}
+		}
+		out = append(out, st)
+	}
+	return out
+}
